@@ -118,7 +118,7 @@ class C05(PropBase):
                    "the primitive/constructed bit of the UnbindRequest attached to client errors is not asserted (C03's subject; 62 00 is pinned "
                    "by tests/test_controls.py)",
                    "custom types registered for the run raise ValueError on malformed values (harness types, not library code)"]
-    RUNS = {"quick": 4800, "thorough": 60000}
+    RUNS = {"quick": 40000, "thorough": 400000}
     STEPS = {"quick": 90, "thorough": 140}
     REQUIRED_REACH = ("error_with_residue", "error_with_ops_outstanding", "zero_len_integer_delivered", "deep_nest_over_limit",
                       "response_forwarded_and_recognised", "bytes_to_closed_session", "victim_client", "victim_server",
